@@ -221,7 +221,27 @@ fn args_case(ex: &Exes, bytes: &[u8], bounds: &[i64]) -> CaseResult {
         }
         return CaseResult::Pass { nontrivial: k >= 3, hash: hash_str(&format!("w{k}{a:?}")), classes: vec!["wrong argument count".into()], sample: None };
     }
-    let a: Vec<String> = vals.iter().map(|v| v.to_string()).collect();
+    // spelling of a decimal argument: canonical, zero-padded, with an explicit plus sign
+    let mut padded = false;
+    let a: Vec<String> = vals
+        .iter()
+        .map(|v| {
+            let digits = v.unsigned_abs().to_string();
+            match c.weighted(&[60, 22, 10, 8]) {
+                0 => v.to_string(),
+                1 => {
+                    padded = true;
+                    format!("{}{}{digits}", if *v < 0 { "-" } else { "" }, "0".repeat(1 + c.choose(3)))
+                }
+                2 if *v >= 0 => format!("+{digits}"),
+                3 if *v >= 0 => {
+                    padded = true;
+                    format!("+0{digits}")
+                }
+                _ => v.to_string(),
+            }
+        })
+        .collect();
     let r = match run_with_timeout(&exe, &a, Duration::from_secs(10)) {
         Ok(r) => r,
         Err(e) => return CaseResult::Discard(format!("infra: {e}")),
@@ -237,14 +257,18 @@ fn args_case(ex: &Exes, bytes: &[u8], bounds: &[i64]) -> CaseResult {
         return CaseResult::Fail(Failure {
             kind: "args".into(),
             summary: format!("main({}) prints {:?} and exits with {:?}; expected {:?} and {status}", a.join(", "), String::from_utf8_lossy(&r.stdout), r.code, String::from_utf8_lossy(&expected)),
-            details: json!({"source": program(k, ret), "args": vals}),
+            details: json!({"source": program(k, ret), "args": a}),
         });
     }
     let big = vals.iter().any(|v| v.unsigned_abs() >= 1 << 31);
+    let mut classes = vec![format!("parameters:{k}")];
+    if padded {
+        classes.push("zero-padded decimal argument".into());
+    }
     CaseResult::Pass {
         nontrivial: big || k >= 3,
-        hash: hash_str(&format!("{k}{ret:?}{vals:?}")),
-        classes: vec![format!("parameters:{k}")],
+        hash: hash_str(&format!("{k}{ret:?}{a:?}")),
+        classes,
         sample: Some(json!({"source": program(k, ret), "args": vals, "status": status})),
     }
 }
@@ -345,7 +369,7 @@ fn a64_args_case(bytes: &[u8], bounds: &[i64]) -> CaseResult {
 pub fn check(ctx: &Ctx) -> i32 {
     let start = Instant::now();
     let mut ev = Evidence::default();
-    ev.rule = "printing: io.c of the working tree linked with a tiny C main; batches of up to 40 values drawn from all boundaries (0, +-1, +-9, +-10, powers of ten +-1, powers of two +-1, MIN, MAX, every d*10^e for d = 1..9 with neighbours and with small / nine-digit / twelve-digit tails), sums of up to three terms d*10^e (zeros inside the decimal form) and random 64-bit values; oracle: Rust's decimal formatting (+ newline for the line variant). arguments/status: programs `def main(a0..ak){ println_i64(a0); ...; ai }` for k = 0..5 compiled through the real pipeline and generate_c_driver, run natively with boundary/random decimal arguments; oracle: each parameter printed unchanged and in order, status = result mod 256; with one argument too few/too many: a message, non-zero status and no program output. heap size: one allocating program linked with the C driver generated for heap sizes default, 1, 64, 1024, 2048 and 3000 MB must behave identically (if the machine can allocate that much). AArch64: the same programs for k = 0..7 on the emulator with the arguments in X1..X7. Non-trivial: |value| >= 2^31 or k >= 3; distinct by hash of the values.".into();
+    ev.rule = "printing: io.c of the working tree linked with a tiny C main; batches of up to 40 values drawn from all boundaries (0, +-1, +-9, +-10, powers of ten +-1, powers of two +-1, MIN, MAX, every d*10^e for d = 1..9 with neighbours and with small / nine-digit / twelve-digit tails), sums of up to three terms d*10^e (zeros inside the decimal form) and random 64-bit values; oracle: Rust's decimal formatting (+ newline for the line variant). arguments/status: programs `def main(a0..ak){ println_i64(a0); ...; ai }` for k = 0..5 compiled through the real pipeline and generate_c_driver, run natively with boundary/random decimal arguments in several spellings (canonical, zero-padded `007`/`-0042`, explicit plus sign); oracle: each parameter printed unchanged and in order, status = result mod 256; with one argument too few/too many: a message, non-zero status and no program output. heap size: one allocating program linked with the C driver generated for heap sizes default, 1, 64, 1024, 2048 and 3000 MB must behave identically (if the machine can allocate that much). AArch64: the same programs for k = 0..7 on the emulator with the arguments in X1..X7. Non-trivial: |value| >= 2^31 or k >= 3; distinct by hash of the values.".into();
     ev.assumptions = vec!["gcc and GNU as of the sandbox; AArch64 entry on the emulator only".into()];
     let bounds = boundary_values();
     let ex = Exes { tc: Toolchain::new(ctx.scratch.clone()), printer: Mutex::new(None), progs: Mutex::new(HashMap::new()) };
